@@ -6,6 +6,7 @@ import Driver.Stats
 import Driver.Pause
 import Driver.Url
 import Driver.Queue
+import Driver.Stage
 /-! zdriver: `zdriver <domain> [--base]` reads one JSON object per line, prints one result line each. -/
 open Lean
 
@@ -21,6 +22,7 @@ def stateless (f : Bool → Json → Except String String) : Domain :=
 def domains : List (String × Domain) := [
   ("disk", stateless Driver.Disk.step),
   ("pause", { σ := Zeno.Model.Pause.S, init := {}, step := Driver.Pause.step }),
+  ("stage", { σ := Driver.Stage.St, init := {}, step := Driver.Stage.step }),
   ("queue", { σ := List Zeno.Model.Queue.Row, init := [], step := Driver.Queue.step }),
   ("url", stateless Driver.Url.step),
   ("stats", stateless Driver.Stats.step),
